@@ -216,13 +216,15 @@ impl ExpandedRawDate {
         }
 
         let n = data.get(offset + 1)?;
-        let hour1 = if !n.is_ascii_digit() || *n == b'0' {
+        let hour1 = if !n.is_ascii_digit() {
             return None;
         } else {
             n - b'0'
         };
 
         match data.get(offset + 2) {
+            // a zero hour is disallowed
+            None if hour1 == 0 => None,
             None => Some(ExpandedRawDate {
                 year,
                 month,
@@ -230,8 +232,9 @@ impl ExpandedRawDate {
                 hour: hour1,
             }),
             Some(n) if n.is_ascii_digit() => {
+                // the zero padded format writes hours 1 to 9 as `01` to `09`
                 let result = hour1 * 10 + (n - b'0');
-                if data.len() != offset + 3 {
+                if data.len() != offset + 3 || result == 0 {
                     None
                 } else {
                     Some(ExpandedRawDate {
